@@ -9,7 +9,12 @@ ID = "C08"
 LEAN_MODULES = ["LhasaV.Props.C08"]
 VH_FEATURES = ["reader", "header"]
 PER_OP_SECONDS = 30
-THEOREMS = {'header_no_fault': 'full: every input byte string', 'header_consumes_within': 'full', 'leadin_no_fault': 'full', 'reader_no_uaf': 'full: every history', '(compiled binary, libc, tool)': 'observed by ASan/UBSan, not proved'}
+THEOREMS = {'header_no_fault': 'full: every input byte string', 'header_consumes_within': 'full', 'leadin_no_fault': 'full', 'reader_no_uaf': 'full: every history',
+            'tool_no_fault': 'full at model level: lha x/e/p/l/v on every archive, options, file-system state, answers - no step of the run faults',
+            'extract_run_no_fault': 'full', 'print_run_no_fault': 'full', 'list_headers_no_fault': 'full',
+            'history_no_fault': 'full: library on every history (also the next/check loop of lha t): next never faults, ownership, no decoder fault mark',
+            'visited_state_ok': 'full: what holds at every reader state the tool visits',
+            '(compiled binary, libc, option parsing, progress bar, lha t as a loop, dry run)': 'observed by ASan/UBSan, not proved'}
 TRUSTED = ["hand-written models of the header parser, input stream, basic reader, reader and MacBinary pass-through "
            "(LhasaV.Model.{Header,Stream,Reader}); every raw-data / lead-in access is a checked access, header ownership is a ghost ledger",
            "clang ASan + UBSan as the observer of memory errors in the compiled library and tool; file-system layer of the library "
@@ -37,9 +42,13 @@ def judge(c_out):
 
 def gen_archive(r, smalls):
     k = r.random()
-    if k < 0.15:
+    if k < 0.12:
         name, d = r.choice(smalls)
         return d, "corpus"
+    if k < 0.22:
+        return A.dirkind_archive(r), "dir-kinds"
+    if k < 0.27:
+        return r.choice([A.odd_method_archive, A.prefix_dirs_archive])(r), "odd-members"
     if k < 0.55:
         name, d = r.choice(smalls)
         return A.mutate_archive(r, d), "mutated"
@@ -57,10 +66,13 @@ def gen_cases(ctx, n):
     for i in range(n):
         d, kind = gen_archive(r, smalls)
         toks = A.decode_history(r) if kind == "hostile-member" else A.legal_history(r)
+        if kind in ("dir-kinds", "odd-members"):
+            toks = A.extract_history(r)
         out.append(Case(A.rdr_op(r.choice(A.KINDS), r.choice(A.POLICIES), toks, d), judge=judge,
                         tags={"lib", kind}))
         if i % 3 == 0:
-            mode = r.choice(["t", "p", "xqf"]) if kind == "hostile-member" else r.choice(CLI_MODES)
+            mode = r.choice(["t", "p", "xqf"]) if kind == "hostile-member" else \
+                r.choice(["xqf", "xf", "eq", "xqfi", "t", "v"]) if kind in ("dir-kinds", "odd-members") else r.choice(CLI_MODES)
             out.append(Case("cli %s %s %s" % (mode, r.choice(["file", "stdin"]), d.hex() or "-"), judge=judge,
                             tags={"cli", "mode=" + mode, kind}))
     # header-level perturbations (every single-byte substitution at the length/level bytes, every truncation,
@@ -134,8 +146,11 @@ def signature(case, c_out, why):
 
 
 LEVEL_TEXT = ("Lean theorems: the header parser model never faults for any input bytes (every raw-data and extended-header index is "
-              "in range); with C09's decoder theorems for member data. Sanitizer-observed correspondence runs of the reader API over "
+              "in range); with C09's decoder theorems for member data, NO STEP of a whole run of lha x/e/p/l/v on any archive faults "
+              "(tool_no_fault: every reader state the loops visit is the state of a legal history, next cannot fault on it, ownership holds, "
+              "the open decoder is reachable and unmarked). Sanitizer-observed correspondence runs of the reader API over "
               "four stream kinds and of the CLI tool on corpus, mutated, structured and random archives.")
 LEVEL_NOTE = ("Partial: proofs cover the index and ownership arithmetic of the modelled code; that the compiled binary performs no other "
               "invalid access (libc, printf, stack) is observed by ASan/UBSan on the generated inputs, not proved.")
-TECHNIQUE = "Lean 4 proof (fault-unreachability of the checked-access parser model) + sanitizer differential correspondence (library histories and CLI)"
+TECHNIQUE = ("Lean 4 proof (fault-unreachability of the checked-access models: parser, stream, every decoder, reader on every history, and the "
+             "whole run of lha x/e/p/l/v by loop invariant) + sanitizer differential correspondence (library histories and CLI)")
